@@ -64,3 +64,39 @@ package stubs
 //@ axiom all[string](a, (hexenc(a) == "") == (a == ""))
 //@ extern encoding/hex.EncodeToString
 //@   ensures result == hexenc(str(src))
+
+// ---- file system (ghost state functions; process-crash semantics are stated at the call sites, see db/fs) ----
+//@ gstate fsExists(path string) bool
+//@ gstate fsContent(path string) string
+//@ ufun fileOf(f int) string
+//@ ufun pjoin(dir string, name string) string
+//@ ufun b64enc(s string) string
+// distinct names in one directory give distinct paths (names are storage keys without '/' : premise of C10/C11)
+//@ axiom all[string](d, all[string](a, all[string](b, pjoin(d, a) == pjoin(d, b) ==> a == b)))
+//@ axiom all[string](d, all[string](a, pjoin(d, a) != ""))
+//@ axiom all[string](a, all[string](b, b64enc(a) == b64enc(b) ==> a == b))
+
+//@ extern path.Join
+//@   params elem
+//@   ensures len(elem) == 2 ==> result == pjoin(elem[0], elem[1])
+
+//@ extern (*encoding/base64.Encoding).EncodeToString
+//@   ensures result == b64enc(str(src))
+
+//@ extern os.Open
+//@   ensures result1 == nil ==> result0 != nil && fsExists(name) && fileOf(result0) == name
+//@   ensures result1 != nil ==> result0 == nil
+//@   ensures !fsExists(name) ==> result1 != nil
+
+//@ extern (*os.File).Close
+//@   params f
+
+//@ extern io/ioutil.ReadAll
+//@   ensures result1 == nil && typeis[*os.File](r) ==> str(result0) == fsContent(fileOf(as[*os.File](r)))
+
+// WriteFile creates or truncates the file and then writes: on success the file holds exactly the data.
+//@ extern io/ioutil.WriteFile
+//@   modifies fsExists[filename], fsContent[filename]
+//@   ensures result == nil ==> fsExists(filename) && fsContent(filename) == str(data)
+
+//@ extern os.MkdirAll
